@@ -6,6 +6,7 @@ import LP.Driver.Containers
 import LP.Driver.Poly
 import LP.Driver.Refs
 import LP.Driver.Roots
+import LP.Driver.Alg
 import Std.Data.HashMap
 open LP LP.Driver
 
@@ -37,6 +38,7 @@ def checkLine (line : String) : String × String × Verdict :=
         | "gcd" => checkGcd op args r
         | "res" => checkRes op args r
         | "roots" => checkRoots op args r
+        | "alg" => checkAlg op args r
         | "ugcd" => checkUGcd op args r
         | "refs" => checkRefs args r
         | _ => Verdict.skip s!"unknown family {fam}"
